@@ -7,7 +7,7 @@
       if handler.initial_delay is not None: sleep(initial_delay)
       state = fresh
       while not stopper.is_set():
-          if state.done: state = fresh                               # success AND permanent failure
+          if state.done and not state.counts.failure: state = fresh  # success only; a failed state is kept
           if handler.idle is not None:
               while clock() - memory.idle_reset_time < handler.idle:  # the idle gate
                   sleep(memory.idle_reset_time + handler.idle - clock())
@@ -18,11 +18,18 @@
           if not state.done:              sleep(state.delays)         # max(0, delayed - now)
           elif interval and sharp:        sleep(interval - (clock() - started) % interval)
           elif interval:                  sleep(interval)
-          elif idle:                      while memory.idle_reset_time <= started: sleep(idle)
+          elif idle:                      while memory.idle_reset_time <= started and not stopper.is_set(): sleep(idle)
           else:                           break
 
-  The stopper is not modelled: setting it cuts every sleep short and ends the loop, i.e. it only
-  truncates the run sequence (the one exception, the idle-only poll loop that ignores it, is C09's F1).
+  After a run that FAILED FOR GOOD (PermanentError, errors=PERMANENT, retries exhausted) the state is
+  kept: it is done, so `execute_handlers_once` finds nothing awakened and invokes nothing, `with_outcomes({})`
+  changes nothing, and the loop keeps going round the interval / idle branches (or breaks, for a
+  one-shot timer) without ever calling the function again: such a run has no successor (`Next` is
+  false; `nextStartN` answers `never`, or `ended` when the loop breaks).
+  How the stopper enters: it is not a component of the model. Every loop of `_timer` (main loop, idle
+  gate, idle-only poll loop — `stopperGuards`, checked by the translator) has `not stopper.is_set()` in
+  its condition and every sleep is woken by it, so once it is set no further run starts and the task
+  ends: a run sequence `Sched` is any PREFIX of the unstopped behaviour (`Chain.nil` at any point).
   Preconditions under which the arithmetic equals Python's: `interval > 0` (Python's float `%` and
   Lean's `Int.emod` agree for a positive divisor and a non-negative dividend; `interval = 0` raises
   ZeroDivisionError in the sharp branch) and handler `timeout` unset (otherwise an iteration can fail
@@ -57,7 +64,8 @@ inductive Result where
 
 /-- `execution.Outcome` as far as the loop reads it: `state.done`, and the delay of a non-final one. -/
 inductive Outcome where
-  | done                             -- final: success, ignored error, permanent failure, retries exhausted
+  | done                             -- final, no exception: success, or an error under errors=IGNORED
+  | failed                           -- final with an exception: PermanentError, errors=PERMANENT, retries exhausted
   | retry (delay : Option Int)
   deriving DecidableEq, Repr
 
@@ -70,13 +78,13 @@ def lookaheadRetries (cfg : Cfg) (attempt : Nat) : Bool :=
 /-- the `except` chain of `execute_handler_once` (timeout unset) -/
 def classify (cfg : Cfg) (attempt : Nat) : Result → Outcome
   | .ok => .done
-  | .permanent => .done
-  | .temporary d => if lookaheadRetries cfg attempt then .done else .retry d
+  | .permanent => .failed
+  | .temporary d => if lookaheadRetries cfg attempt then .failed else .retry d
   | .arbitrary =>
     match cfg.errors with
     | .ignored => .done
-    | .permanent => .done
-    | .temporary => if lookaheadRetries cfg attempt then .done else .retry (some cfg.backoff)
+    | .permanent => .failed
+    | .temporary => if lookaheadRetries cfg attempt then .failed else .retry (some cfg.backoff)
 
 /-- One run of the timer function, with the three instants the schedule depends on. -/
 structure Run where
@@ -93,11 +101,12 @@ instance (r : Run) : Decidable r.WF := by unfold Run.WF; infer_instance
 
 def Run.out (cfg : Cfg) (r : Run) : Outcome := classify cfg r.attempt r.res
 
-/-- `retry` kwarg of the following run: the state is reset exactly when it is done. -/
+/-- `retry` kwarg of the following run: the state is reset exactly when it is done without a failure
+    (after `failed` there is no following run). -/
 def nextAttempt (cfg : Cfg) (r : Run) : Nat :=
   match r.out cfg with
-  | .done => 0
   | .retry _ => r.attempt + 1
+  | _ => 0
 
 /-- `aiotime.sleep(d)` entered at `now` returns at `now + d`, or at once when `d ≤ 0`. -/
 def sleepUntil (now d : Int) : Int := if d ≤ 0 then now else now + d
@@ -119,7 +128,7 @@ inductive Wake where
 def wake (cfg : Cfg) (r : Run) : Wake :=
   match r.out cfg with
   | .retry d => .at (sleepUntil r.patched (stateDelay r.ended r.patched d))
-  | .done =>
+  | _ =>      -- `state.done`: succeeded or failed for good alike
     match cfg.interval with
     | some i =>
       if cfg.sharp then .at (sleepUntil r.patched (i - (r.patched - r.start) % i))
@@ -157,8 +166,10 @@ inductive Poll (idle : Int) (view : View) (start : Int) : Int → Int → Prop w
   | exit {p : Int} : ¬ (view p ≤ start) → Poll idle view start p p
   | again {p p' : Int} : view p ≤ start → Poll idle view start (sleepUntil p idle) p' → Poll idle view start p p'
 
-/-- `t'` is a possible start of the run that follows `r`. -/
+/-- `t'` is a possible start of the run that follows `r`. A run that failed for good has none: the
+    loop goes on (`wake`), but the kept state awakens nothing and the function is never invoked again. -/
 def Next (cfg : Cfg) (view : View) (r : Run) (t' : Int) : Prop :=
+  r.out cfg ≠ .failed ∧
   match wake cfg r with
   | .at w => Gate cfg view w t'
   | .poll idle => ∃ p, Poll idle view r.start r.patched p ∧ Gate cfg view p t'
@@ -195,6 +206,7 @@ abbrev PView := Int → Option Int
 inductive Res where
   | start (t : Int)
   | ended                -- the loop broke (one-shot timer)
+  | never                -- the run failed for good: the loop goes on, the function is never invoked again
   | noObs (t : Int)     -- the model wants to read `idle_reset_time` at `t`, nothing was observed there
   | diverged             -- fuel exhausted (e.g. `idle ≤ 0` in the poll loop: the real loop spins)
   deriving DecidableEq, Repr
@@ -219,13 +231,18 @@ def pollN (idle : Int) (pv : PView) (start : Int) : Nat → Int → Res
     | some v => if v ≤ start then pollN idle pv start n (sleepUntil p idle) else .start p
 
 def nextStartN (cfg : Cfg) (pv : PView) (n : Nat) (r : Run) : Res :=
-  match wake cfg r with
-  | .at w => gateN cfg pv n w
-  | .poll idle =>
-    match pollN idle pv r.start n r.patched with
-    | .start p => gateN cfg pv n p
-    | other => other
-  | .stop => .ended
+  if r.out cfg = .failed then
+    (match wake cfg r with
+     | .stop => .ended
+     | _ => .never)
+  else
+    match wake cfg r with
+    | .at w => gateN cfg pv n w
+    | .poll idle =>
+      match pollN idle pv r.start n r.patched with
+      | .start p => gateN cfg pv n p
+      | other => other
+    | .stop => .ended
 
 def firstStartN (cfg : Cfg) (pv : PView) (n : Nat) (spawn : Int) : Res :=
   gateN cfg pv n (initialWake cfg spawn)
@@ -253,11 +270,11 @@ inductive Post where
   deriving DecidableEq, Repr
 
 def postAtoms (cfg : Cfg) (r : Run) : PostAtoms :=
-  { done := (match r.out cfg with | .done => true | .retry _ => false),
+  { done := (match r.out cfg with | .retry _ => false | _ => true),
     hasInterval := cfg.interval.isSome, sharp := cfg.sharp, hasIdle := cfg.idle.isSome,
     interval := cfg.interval.getD 0, idle := cfg.idle.getD 0,
     now := r.patched, started := r.start,
-    delays := (match r.out cfg with | .done => 0 | .retry d => stateDelay r.ended r.patched d) }
+    delays := (match r.out cfg with | .retry d => stateDelay r.ended r.patched d | _ => 0) }
 
 def wakeOfPost (now : Int) : Post → Wake
   | .sleep d => .at (sleepUntil now d)
@@ -280,12 +297,19 @@ def pollDelay (a : GateAtoms) : Int := a.idle
 
 /-- The statement skeleton of `_timer` the model is written against. -/
 inductive Step where
-  | initialDelay | freshState | resetIfDone | idleGate | stampStart | execute | withOutcomes
+  | initialDelay | freshState | resetUnlessFailed | idleGate | stampStart | execute | withOutcomes
   | deliver | patch | rebindPatch | post
   deriving DecidableEq, Repr
 
 def prologue : List Step := [.initialDelay, .freshState]
 def loopBody : List Step :=
-  [.resetIfDone, .idleGate, .stampStart, .execute, .withOutcomes, .deliver, .patch, .rebindPatch, .post]
+  [.resetUnlessFailed, .idleGate, .stampStart, .execute, .withOutcomes, .deliver, .patch, .rebindPatch, .post]
+
+/-- The loops of `_timer` whose condition carries `not stopper.is_set()` (all of them). -/
+inductive LoopId where
+  | main | idleGate | idlePoll
+  deriving DecidableEq, Repr
+
+def stopperGuards : List LoopId := [.main, .idleGate, .idlePoll]
 
 end Kopf.C10
